@@ -60,8 +60,7 @@ theorem dropFuture_obs (s : St) (σ : Builder.BState) :
     (dropFuture s σ).queue = s.queue ∧ (dropFuture s σ).pc = s.pc ∧ (dropFuture s σ).werr = s.werr ∧
     resolvedIds (dropFuture s σ).obs = resolvedIds s.obs ∧ closings (dropFuture s σ).obs = closings s.obs := by
   unfold dropFuture
-  simp only
-  split <;> simp [emit, resolvedIds, closings]
+  simp
 
 theorem pollRecv_obs (s : St) (σ : Builder.BState) :
     (pollRecv s σ).1.obs = s.obs ∧ (pollRecv s σ).1.queue = s.queue ∧ (pollRecv s σ).1.werr = s.werr ∧
@@ -79,10 +78,12 @@ theorem pollRecv_obs (s : St) (σ : Builder.BState) :
     | none =>
       simp only
       by_cases ha : s.avail.isEmpty = true
-      · simp [ha]
+      · simp only [ha, if_true]
+        split <;> simp
       · simp only [ha]
         rcases Builder.feed σ1 (rest1 ++ s.avail) with ⟨σ2, rest2, out2⟩
         cases out2 <;> simp
+        split <;> simp
 
 theorem pollRecv_obs' (t : St) (σ : Builder.BState) (p : St × RecvPoll) (hp : pollRecv t σ = p) :
     p.1.obs = t.obs ∧ p.1.queue = t.queue := by
